@@ -81,14 +81,17 @@ func TestDebugC12Cold(t *testing.T) {
 		seed := RunSeed(99, "C12", i)
 		r := NewRng(seed)
 		p := prop.Gen(r, "quick", i)
-		if os.Getenv("VERIF_DEBUG_COLD_VARIANT") == "pos" {
+		if os.Getenv("VERIF_DEBUG_COLD_VARIANT") == "ret" {
+			p.Holds = nil
+			genC12RetentionVsCompaction(r, p)
+		} else if os.Getenv("VERIF_DEBUG_COLD_VARIANT") == "pos" {
 			p.Holds = nil
 			genC12ColdPos(r, p)
 		} else {
 			genC12ColdCache(r, p)
 		}
 		p.Schedule = nil
-		for i := 0; i < 2500; i++ {
+		for i := 0; i < 4000; i++ {
 			p.Schedule = append(p.Schedule, r.Intn(1000))
 		}
 		p.Seed = seed
